@@ -122,6 +122,11 @@ class time_limit:
         # CPU time of this process (ITIMER_PROF), not wall-clock time: a runaway loop burns
         # CPU, while a process that is merely descheduled on a loaded machine does not - a
         # wall-clock limit here once produced false "hang" alarms during a heavily loaded run
+        # no automatic garbage collection inside the window: in a shard that has been running
+        # for a long time a full collection can take seconds of CPU on its own (a thorough run
+        # once reported a three-line generator as "hanging")
+        self.gc_was_on = gc.isenabled()
+        gc.disable()
         self.old = signal.signal(signal.SIGPROF, _alarm)
         signal.setitimer(signal.ITIMER_PROF, self.seconds, 0.05)
 
@@ -130,6 +135,8 @@ class time_limit:
 
         signal.setitimer(signal.ITIMER_PROF, 0)
         signal.signal(signal.SIGPROF, self.old)
+        if self.gc_was_on:
+            gc.enable()
 
 
 def run_call(fn_obj, fn_ir, recipe, glb, script=None, leave=None, leave_at=0):
